@@ -3,7 +3,8 @@
    width = number of characters of the one-line text; empty containers use the `empty`
    spacing).  Holds for EVERY option record and EVERY value. *)
 From JsonSyntax Require Import Base.Prelude Base.Value Model.Printer Spec.Grammar Spec.Layout
-  Proofs.PrinterProofs Proofs.PrinterTheorems.
+  Proofs.PrinterProofs Proofs.PrinterTheorems
+  Base.ConstSyntax Generated.Consts Proofs.ConstsTie.
 
 Theorem C13_print_is_layout : forall o v, print_with o v = Some (layout_text o v).
 Proof. exact C13_layout. Qed.
@@ -50,6 +51,19 @@ Example C13_example :
   /\ print_with o (VArr []) = Some (s2l "[]").
 Proof. vm_compute. split; reflexivity. Qed.
 
+
+(* ---- static tie of the constant tables (DESIGN.md section 4, "Translator tie for constant tables"):
+   `src_..` (Generated/Consts.v) is what lib/const_translate.py evaluates the named function / constant of
+   the Rust source to -- regenerated from the tree under check at the start of every `bin/check` of this
+   property --, the right-hand side is the same data computed from the model's own function
+   (Base/ConstSyntax.v: set_of = the maximal runs of domain points where a predicate holds) ---- *)
+Theorem C13_presets_from_source :
+  src_preset_pretty = cval_of_popts Printer.pretty /\
+  src_preset_compact = cval_of_popts Printer.compact /\
+  src_preset_inline = cval_of_popts Printer.inline /\
+  (forall a b, cval_of_popts a = cval_of_popts b -> a = b).
+Proof. exact ConstsTie.presets_from_source. Qed.
+
 Print Assumptions C13_print_is_layout.
 Print Assumptions C13_sizes_lockstep.
 Print Assumptions C13_width_is_length.
@@ -59,3 +73,4 @@ Print Assumptions C13_no_break_needs_it.
 Print Assumptions C13_inline_never_breaks.
 Print Assumptions C13_compact_never_breaks.
 Print Assumptions C13_example.
+Print Assumptions C13_presets_from_source.
